@@ -198,6 +198,16 @@ def run(facts, tier):
             t = blocks[i]["term"]
             if e1.producer(facts, f, defs, t["args"][2]) != "id":
                 ok = False
+        # ... of the node that is being split: in the typed tree the receiver chain of that id() starts at `self`
+        from facts import walk as _walk
+        for n in _walk(f["body"]):
+            if n.get("k") == "MethodCall" and n["m"] == "insert_after" and len(n.get("args", [])) >= 2:
+                ref = n["args"][1]
+                r = ref
+                while isinstance(r, dict) and r.get("k") in ("MethodCall", "Field", "AddrOf", "Deref"):
+                    r = r.get("recv") or r.get("a") or r.get("e")
+                if not (isinstance(r, dict) and r.get("k") == "Path" and r.get("name") == "self"):
+                    ok = False
         res.oblige(1, ok)
         if not ok:
             res.add(Finding("C16-5", ty, "%s: split_at must dominate insert_after(new, self.id()) (split_at in %s, insert_after in %s)"
